@@ -1123,8 +1123,8 @@ int FMesher::DoPeriodicBCTriangulation(string PathName)
 #endif // DEBUG
 
 		// pbc
-		if ( (problem->lineproplist[i]->BdryFormat==4)
-             || (problem->lineproplist[i]->BdryFormat==5))
+		if ( problem->lineproplist[i]->isPeriodic() // 4/5 magnetics and heat flow, 3/4 electrostatics
+             && (problem->lineproplist[i]->BdryFormat<6)) // 6/7: air gap elements, below
         {
 #ifdef DEBUG
         {
